@@ -450,7 +450,16 @@ where
         let mut bytesmut = BytesMut::new();
         let max_frame_size = self.framed_write.encoder().max_frame_length();
         let mut encoder = amqp::FrameEncoder::new(max_frame_size);
+        // Only a transfer is encoded as a sequence of frames of at most
+        // `max_frame_size` bytes; any other performative is a single frame
+        let is_transfer = matches!(item.body, amqp::FrameBody::Transfer { .. });
         encoder.encode(item, &mut bytesmut)?;
+
+        if !is_transfer && bytesmut.len() > max_frame_size {
+            // Cutting the frame below would put chunks without a frame header
+            // on the wire; the frame cannot be sent within the peer's limit
+            return Err(Error::FramingError);
+        }
 
         while bytesmut.len() > max_frame_size {
             let partial = bytesmut.split_to(max_frame_size);
